@@ -88,12 +88,23 @@ fn mem_operand(c: &mut Vec<u8>, reg: usize, base: usize, disp: i32) {
     if disp == 0 && b != 5 { c.push(r | b); } else if (-128..=127).contains(&disp) { c.push(0x40 | r | b); c.push(disp as i8 as u8); } else { c.push(0x80 | r | b); c.extend(disp.to_le_bytes()); }
 }
 
-struct Case { code: Vec<u8>, regs: Vec<String>, jump: bool }
+struct Case { code: Vec<u8>, regs: Vec<String>, jump: bool, fl: Option<u64> }
 
 fn base_regs(r: &mut Rng) -> Vec<String> {
     let mut v: Vec<String> = (0..16).map(|_| format!("{:x}", if r.chance(2, 3) { *r.pick(V64) } else { r.next() })).collect();
     v[R_RSP] = "M+192".into();
     v
+}
+
+/// operand pairs on the boundaries of the flag definitions: equal, negations (sum exactly 2^64 / 2^32), complements,
+/// neighbours, sign-boundary sums
+fn related(r: &mut Rng, a: u64) -> u64 {
+    match r.below(14) {
+        0 => a, 1 => a.wrapping_neg(), 2 => !a, 3 => a.wrapping_add(1), 4 => a.wrapping_sub(1),
+        5 => (1u64 << 63).wrapping_sub(a), 6 => (1u64 << 32).wrapping_sub(a & 0xffff_ffff), 7 => (1u64 << 31).wrapping_sub(a & 0x7fff_ffff),
+        8 => 0, 9 => u64::MAX, 10 => a ^ (1 << 63), 11 => a ^ (1 << 31), 12 => (a & 0xffff_ffff).wrapping_neg() & 0xffff_ffff,
+        _ => if r.chance(1, 2) { *r.pick(V64) } else { r.next() },
+    }
 }
 
 pub fn gen(w: &mut impl Write, thorough: bool, seed: u64) {
@@ -104,34 +115,40 @@ pub fn gen(w: &mut impl Write, thorough: bool, seed: u64) {
     let mut cases: Vec<Case> = vec![];
     for _ in 0..reps {
         // register-register ALU, both widths
-        for &op in &[0x01u8, 0x09, 0x21, 0x29, 0x31, 0x39, 0x85, 0x89] { for w_ in 0..2u8 { for _ in 0..6 {
+        for &op in &[0x01u8, 0x09, 0x21, 0x29, 0x31, 0x39, 0x85, 0x89] { for w_ in 0..2u8 { for _ in 0..14 {
             let (s, d) = (*r.pick(&gp), *r.pick(&gp));
             let mut c = vec![]; rex_opt(&mut c, w_, s, d); c.push(op); c.push(modrm_rr(s, d));
-            cases.push(Case { code: c, regs: base_regs(&mut r), jump: false });
+            let mut regs = base_regs(&mut r);
+            let a = if r.chance(1, 2) { *r.pick(V64) } else { r.next() }; let b = related(&mut r, a);
+            regs[d] = format!("{:x}", a); if s != d { regs[s] = format!("{:x}", b); }
+            cases.push(Case { code: c, regs, jump: false, fl: None });
         } } }
         // register-immediate: 81 /ext, c7 /0 (mov), f7 /0 (test)
-        for &(opc, ext) in &[(0x81u8, 0usize), (0x81, 1), (0x81, 4), (0x81, 5), (0x81, 6), (0x81, 7), (0xc7, 0), (0xf7, 0)] { for w_ in 0..2u8 { for _ in 0..4 {
+        for &(opc, ext) in &[(0x81u8, 0usize), (0x81, 1), (0x81, 4), (0x81, 5), (0x81, 6), (0x81, 7), (0xc7, 0), (0xf7, 0)] { for w_ in 0..2u8 { for _ in 0..10 {
             let d = *r.pick(&gp); let imm = if r.chance(1, 2) { *r.pick(I32) } else { r.next() as i32 };
             let mut c = vec![]; rex_opt(&mut c, w_, 0, d); c.push(opc); c.push(modrm_rr(ext, d)); c.extend(imm.to_le_bytes());
-            cases.push(Case { code: c, regs: base_regs(&mut r), jump: false });
+            let mut regs = base_regs(&mut r);
+            let b = if w_ == 1 { imm as i64 as u64 } else { imm as u32 as u64 };
+            let a = related(&mut r, b); regs[d] = format!("{:x}", if w_ == 0 && r.chance(1, 2) { a | (r.next() << 32) } else { a });
+            cases.push(Case { code: c, regs, jump: false, fl: None });
         } } }
         // movabs
         for _ in 0..4 { let d = *r.pick(&gp); let mut c = vec![rex(1, 0, d), 0xb8 | (d & 7) as u8]; c.extend((if r.chance(1, 2) { *r.pick(V64) } else { r.next() }).to_le_bytes());
-            cases.push(Case { code: c, regs: base_regs(&mut r), jump: false }); }
+            cases.push(Case { code: c, regs: base_regs(&mut r), jump: false, fl: None }); }
         // shifts by immediate (64, 32 and 16 bit) and by cl
         for &ext in &[0usize, 4, 5, 7] { for sz in [64u8, 32, 16] { for &n in &[0u8, 1, 7, 8, 15, 16, 17, 31, 32, 33, 63, 64, 65, 255] {
             let d = *r.pick(&gp); let mut c = vec![]; if sz == 16 { c.push(0x66); } rex_opt(&mut c, (sz == 64) as u8, 0, d); c.push(0xc1); c.push(modrm_rr(ext, d)); c.push(n);
-            cases.push(Case { code: c, regs: base_regs(&mut r), jump: false });
+            cases.push(Case { code: c, regs: base_regs(&mut r), jump: false, fl: None });
         } } }
         for &ext in &[0usize, 4, 5, 7] { for w_ in 0..2u8 { for _ in 0..6 {
             let d = *r.pick(&gp); let mut c = vec![]; rex_opt(&mut c, w_, 0, d); c.push(0xd3); c.push(modrm_rr(ext, d));
             let mut regs = base_regs(&mut r); regs[1] = format!("{:x}", *r.pick(&[0u64, 1, 31, 32, 33, 63, 64, 65, 0x100, 0x13f, u64::MAX, 0x8000_0000_0000_0020]));
-            cases.push(Case { code: c, regs, jump: false });
+            cases.push(Case { code: c, regs, jump: false, fl: None });
         } } }
         // neg, mul, div (the generator keeps the quotient in range: rdx below the divisor)
         for w_ in 0..2u8 { for _ in 0..6 {
-            let d = *r.pick(&gp); let mut c = vec![]; rex_opt(&mut c, w_, 0, d); c.push(0xf7); c.push(modrm_rr(3, d)); cases.push(Case { code: c, regs: base_regs(&mut r), jump: false });
-            let s = *r.pick(&gp); let mut c = vec![]; rex_opt(&mut c, w_, 0, s); c.push(0xf7); c.push(modrm_rr(4, s)); cases.push(Case { code: c, regs: base_regs(&mut r), jump: false });
+            let d = *r.pick(&gp); let mut c = vec![]; rex_opt(&mut c, w_, 0, d); c.push(0xf7); c.push(modrm_rr(3, d)); cases.push(Case { code: c, regs: base_regs(&mut r), jump: false, fl: None });
+            let s = *r.pick(&gp); let mut c = vec![]; rex_opt(&mut c, w_, 0, s); c.push(0xf7); c.push(modrm_rr(4, s)); cases.push(Case { code: c, regs: base_regs(&mut r), jump: false, fl: None });
             let s = *r.pick(&[1usize, 3, 5, 6, 7, 8, 9, 13, 15]); let mut c = vec![]; rex_opt(&mut c, w_, 0, s); c.push(0xf7); c.push(modrm_rr(6, s));
             let mut regs = base_regs(&mut r);
             let mask = if w_ == 1 { u64::MAX } else { 0xffff_ffff };
@@ -139,11 +156,11 @@ pub fn gen(w: &mut impl Write, thorough: bool, seed: u64) {
             regs[s] = format!("{:x}", dv);
             let hi = if r.chance(1, 2) { 0 } else { r.next() % (dv & mask) };
             regs[2] = format!("{:x}", if w_ == 1 { hi } else { hi | (r.next() << 32) });
-            cases.push(Case { code: c, regs, jump: false });
+            cases.push(Case { code: c, regs, jump: false, fl: None });
         } }
         // bswap, cmovz
-        for w_ in 0..2u8 { for _ in 0..4 { let d = *r.pick(&gp); let mut c = vec![]; rex_opt(&mut c, w_, 0, d); c.push(0x0f); c.push(0xc8 | (d & 7) as u8); cases.push(Case { code: c, regs: base_regs(&mut r), jump: false }); } }
-        for _ in 0..8 { let (d, s) = (*r.pick(&gp), *r.pick(&gp)); let c = vec![rex(1, d, s), 0x0f, 0x44, modrm_rr(d, s)]; cases.push(Case { code: c, regs: base_regs(&mut r), jump: false }); }
+        for w_ in 0..2u8 { for _ in 0..4 { let d = *r.pick(&gp); let mut c = vec![]; rex_opt(&mut c, w_, 0, d); c.push(0x0f); c.push(0xc8 | (d & 7) as u8); cases.push(Case { code: c, regs: base_regs(&mut r), jump: false, fl: None }); } }
+        for _ in 0..8 { let (d, s) = (*r.pick(&gp), *r.pick(&gp)); let c = vec![rex(1, d, s), 0x0f, 0x44, modrm_rr(d, s)]; cases.push(Case { code: c, regs: base_regs(&mut r), jump: false, fl: None }); }
         // loads, stores, store-immediates, lock add: base register into the scratch region, the three displacement encodings
         for &disp in &[0i32, 1, -1, 8, -8, 24, 127, -128, 130, -130] { for sz in [8u8, 16, 32, 64] { for kind in 0..4 {
             let b = *r.pick(&bases); let x = loop { let x = *r.pick(&gp); if x != b { break x; } };
@@ -158,19 +175,22 @@ pub fn gen(w: &mut impl Write, thorough: bool, seed: u64) {
                 _ => { if sz < 32 { continue; } c.push(0xf0); rex_opt(&mut c, (sz == 64) as u8, x, b); c.push(0x01); mem_operand(&mut c, x, b, disp); }
             }
             let mut regs = base_regs(&mut r); regs[b] = format!("M+{}", basev);
-            cases.push(Case { code: c, regs, jump: false });
+            cases.push(Case { code: c, regs, jump: false, fl: None });
         } } }
         // conditional jumps (after arbitrary flags), jmp
-        for &cc in &[0x82u8, 0x83, 0x84, 0x85, 0x86, 0x87, 0x8c, 0x8d, 0x8e, 0x8f] { for _ in 0..3 {
+        // every condition code x every combination of the four flags
+        for &cc in &[0x82u8, 0x83, 0x84, 0x85, 0x86, 0x87, 0x8c, 0x8d, 0x8e, 0x8f] { for fl in 0..16u64 {
             let mut regs = base_regs(&mut r); regs[11] = "0".into();
-            cases.push(Case { code: vec![0x0f, cc, 7, 0, 0, 0], regs, jump: true }); } }
-        { let mut regs = base_regs(&mut r); regs[11] = "0".into(); cases.push(Case { code: vec![0xe9, 7, 0, 0, 0], regs, jump: true }); }
+            cases.push(Case { code: vec![0x0f, cc, 7, 0, 0, 0], regs, jump: true, fl: Some(fl) }); } }
+        { let mut regs = base_regs(&mut r); regs[11] = "0".into(); cases.push(Case { code: vec![0xe9, 7, 0, 0, 0], regs, jump: true, fl: None }); }
+        // cmovz under both values of ZF
+        for fl in [0u64, 2, 13, 15] { let (d, s_) = (*r.pick(&gp), *r.pick(&gp)); cases.push(Case { code: vec![rex(1, d, s_), 0x0f, 0x44, modrm_rr(d, s_)], regs: base_regs(&mut r), jump: false, fl: Some(fl) }); }
         // push / pop
-        for _ in 0..6 { let x = *r.pick(&gp); let mut c = vec![]; rex_opt(&mut c, 0, 0, x); c.push(0x50 | (x & 7) as u8); cases.push(Case { code: c, regs: base_regs(&mut r), jump: false });
-            let mut c = vec![]; rex_opt(&mut c, 0, 0, x); c.push(0x58 | (x & 7) as u8); cases.push(Case { code: c, regs: base_regs(&mut r), jump: false }); }
+        for _ in 0..6 { let x = *r.pick(&gp); let mut c = vec![]; rex_opt(&mut c, 0, 0, x); c.push(0x50 | (x & 7) as u8); cases.push(Case { code: c, regs: base_regs(&mut r), jump: false, fl: None });
+            let mut c = vec![]; rex_opt(&mut c, 0, 0, x); c.push(0x58 | (x & 7) as u8); cases.push(Case { code: c, regs: base_regs(&mut r), jump: false, fl: None }); }
     }
-    for (k, c) in cases.iter().enumerate() {
-        let fl = if c.jump { (k % 16) as u64 } else { r.below(16) };
+    for c in cases.iter() {
+        let fl = match c.fl { Some(f) => f, None => r.below(16) };
         writeln!(w, "x86 code={} regs={} fl={:x} ms={} jump={}", hex(&c.code), c.regs.join(","), fl, r.below(200) as u8, c.jump as u8).unwrap();
     }
 }
